@@ -1,6 +1,20 @@
 (* CollCtorP.v — specifications of the collection-level constructors, mutators and conversions of
    model/Coll.v, obtained by combining the wave-1 theorems (BuilderP, RepeatP, WulP, IfaceP, IterP,
-   IntraP) with the global state invariant `gok` of Inv.v.  Proof file; no model code. *)
+   IntraP) with the global state invariant `gok` of Inv.v.  Proof file; no model code.
+   Section context: ek M H capN uinv, EKW : ek_wf ek, UL : umap_lawful ek M uinv, CAP : capacity_ok capN.
+   Every wp statement holds for every read relation R.
+   Exported:
+     A  gok_incl, gok_alloc_only, gok_dup, gok_alloc_idf, gok_alloc, idf_cons_fresh
+     B  apply_spec_hinv (the shape assumed by IntraP.coll_intra_spec), apply_spec, apply_q_spec,
+        list_empty_spec, list_try_from_iter_spec / _full, list_try_from_iter_slow_spec / _full,
+        list_repeat_spec / _full, list_repeat_slow_spec / _full,
+        pop_front_spec (with retention C10), pop_front_oob, pop_front_slow_spec / _oob,
+        vector_try_from_spec / _wrong_spec, list_from_vector_spec, vector_new_spec / _wrong,
+        vector_try_from_iter_spec / _short / _long, vector_from_elem_spec, vector_default_spec
+        (posts: ctor_post, vctor_post, fail_post, flushed)
+     C  canon_inj, coll_eqb_spec', coll_eqb_spec
+     generic: wp_assoc, allocp (+ allocp_wp0: allocation-only programs are alloc_only for every outcome),
+        wp_fail_to_panic, level_items (level 0 of a packed kind yields no Internal item) *)
 From MH Require Import Inv BuilderP RepeatP WulP IfaceP IterP IntraP.
 Local Open Scope N_scope.
 
@@ -287,6 +301,602 @@ Section CollCtor.
     eapply wp_mono; [|apply (apply_spec R h l st G Gk HI Hin)].
     intros o st' (h' & -> & Rest). cbn [lift wp]. exists h'. split; [reflexivity|exact Rest].
   Qed.
+
+  (* ================= allocation-only programs ================= *)
+  Lemma allocp_merge_n n : forall (top : tree) st, allocp (merge_n n top st).
+  Proof.
+    induction n as [|n IH]; intros top st; cbn [merge_n]; [exact I|].
+    destruct st as [|[b0 l0] st']; [exact I|]. cbn [bind fresh allocp]. intros i. apply IH.
+  Qed.
+  Lemma allocp_push b v : allocp (builder_push ek b v).
+  Proof.
+    unfold builder_push. cbv beta zeta. destruct (blength b =? bcap b); [exact I|]. apply allocp_bind.
+    - destruct (is_packed ek).
+      + destruct (blength b mod pf_of ek =? 0); [cbn [bind fresh allocp]; auto|].
+        destruct (bstack b) as [|[[|] [i0 v0|i0 vs0|i0 l0 r0|i0 d0]] st]; try exact I.
+        destruct (lenN vs0 =? pf_of ek); exact I.
+      + cbn [bind fresh allocp]. auto.
+    - intros [top st]. apply allocp_bind; [apply allocp_merge_n|]. intros [top' st']. exact I.
+  Qed.
+  Lemma allocp_push_all vs : forall b, allocp (push_all ek b vs).
+  Proof.
+    induction vs as [|v vs IH]; intros b; cbn [push_all]; [exact I|].
+    apply allocp_bind; [apply allocp_push|]. intros b'. apply IH.
+  Qed.
+  Lemma allocp_merge_up n : forall i x (st : list (bool * tree)) e1 e2, allocp (merge_up ek n i x st e1 e2).
+  Proof.
+    induction n as [|n IH]; intros i x st e1 e2; cbn [merge_up]; [exact I|].
+    destruct (N.testbit x (N.of_nat (i + pd_of ek))); [|exact I].
+    destruct st as [|[b1 r1] [|[b2 l2] st']]; try exact I. cbn [bind fresh allocp]. intros j. apply IH.
+  Qed.
+  Lemma allocp_finish_loop fuel : forall (b : builder T) lv nx st, allocp (finish_loop ek fuel b lv nx st).
+  Proof.
+    induction fuel as [|f IH]; intros b lv nx st; cbn [finish_loop];
+      destruct (N.shiftl nx (N.of_nat lv) mod 2 ^ 64 =? bcap b); try exact I.
+    destruct st as [|[b1 top] st']; [exact I|]. cbn [bind fresh allocp]. intros zi ni. cbv zeta.
+    apply allocp_bind; [apply allocp_merge_up|]. intros st2.
+    match goal with |- allocp (if ?c then _ else _) => destruct c end; [exact I|].
+    match goal with |- allocp (if ?c then _ else _) => destruct c end; [exact I|]. apply IH.
+  Qed.
+  Lemma allocp_finish (b : builder T) : allocp (builder_finish ek b).
+  Proof.
+    unfold builder_finish. cbv beta zeta. destruct (bstack b) as [|x st] eqn:Es; [cbn [bind fresh allocp]; auto|].
+    destruct (64 <=? blevel b); [exact I|]. apply allocp_bind.
+    - destruct (is_packed ek); [|exact I].
+      match goal with |- allocp (if ?c then _ else _) => destruct c end; [|exact I].
+      apply allocp_bind; [apply allocp_merge_up|]. intros st'. exact I.
+    - intros [next1 st1]. apply allocp_bind; [apply allocp_finish_loop|].
+      intros [|[b1 t1] [|y st2]]; exact I.
+  Qed.
+  Lemma allocp_new depth level : allocp (builder_new ek depth level).
+  Proof. unfold builder_new. cbv beta zeta. destruct (63 <? depth + N.of_nat (pd_of ek)); exact I. Qed.
+  Lemma allocp_list_try_from_iter vs : allocp (list_try_from_iter ek M capN vs).
+  Proof.
+    unfold list_try_from_iter. apply allocp_bind; [apply allocp_new|]. intros b.
+    apply allocp_bind; [apply allocp_push_all|]. intros b'.
+    apply allocp_bind; [apply allocp_finish|]. intros [[t d] n]. destruct (capN <? n); exact I.
+  Qed.
+  Lemma allocp_list_empty : allocp (list_empty ek M capN).
+  Proof. unfold list_empty. cbn [bind fresh allocp]. auto. Qed.
+
+  Lemma builder_new_ok d lv : (d + pd_of ek <= 63)%nat ->
+    builder_new ek (N.of_nat d) lv =
+    Ret {| bstack := []; bdepth := d; blevel := lv; blength := 0; bcap := pow2 (d + pd_of ek) |}.
+  Proof.
+    intros Hd. unfold builder_new. cbv beta zeta.
+    destruct (N.ltb_spec 63 (N.of_nat d + N.of_nat (pd_of ek))); [lia|]. rewrite Nat2N.id. reflexivity.
+  Qed.
+
+  (* ================= B. constructors ================= *)
+  (* the result of a constructor: a clean List handle over a tree all of whose nodes are new *)
+  Definition ctor_post (st : state) (G : list tree) (l : list T) (o : outcome handle) (st' : state) : Prop :=
+    exists h', o = Ok h' /\ hclean h' l /\ hlist h' = true /\ alloc_only st st' /\
+               fresh_or_from st st' [] (htree h') /\ gok st' (htree h' :: G).
+  (* a failing constructor: only allocations happened, so gok st' G still holds (gok_alloc_only) *)
+  Definition fail_post (st : state) (e : error) {A} (o : outcome A) (st' : state) : Prop :=
+    o = Err e /\ alloc_only st st'.
+
+  Lemma from_parts_clean (t : tree) l : shape t = canon ek ld l -> lenN l <= capN ->
+    hclean (from_parts M t ld (lenN l)) l.
+  Proof. intros Hsh Hl. apply hclean_mk; cbn [from_parts hupd htree hblen hdepth hlist]; auto. discriminate. Qed.
+
+  Lemma canon_nil_cc d : canon ek d [] = SZero d.
+  Proof. destruct d; reflexivity. Qed.
+
+  Theorem list_empty_spec R st G : gok st G -> wp R (list_empty ek M capN) (ctor_post st G []) st.
+  Proof.
+    intros Gk. unfold list_empty. cbn [bind fresh wp].
+    assert (Ha : alloc_only st (bump st)) by (split; cbn [bump memo next]; [reflexivity|lia]).
+    assert (FF : fresh_or_from st (bump st) [] (Zero (next st) ld : tree)).
+    { intros u [->|[]]. right. cbn [idof bump next]. lia. }
+    exists (from_parts M (Zero (next st) ld) ld 0). split; [reflexivity|].
+    split; [apply (from_parts_clean (Zero (next st) ld) []); [rewrite canon_nil_cc; reflexivity|rewrite lenN_nil; lia]|].
+    split; [reflexivity|]. split; [exact Ha|]. split; [exact FF|]. cbn [from_parts htree].
+    apply (gok_alloc st (bump st) G [] _ Gk Ha); [intros t0 []|exact FF|].
+    intros t1 t2 u v [<-|[]] [<-|[]] [->|[]] [->|[]] _. reflexivity.
+  Qed.
+
+    Lemma build_spec R vs st : lenN vs <= cap ek ld ->
+      wp R (bind (push_all ek {| bstack := []; bdepth := ld; blevel := 0; blength := 0; bcap := pow2 (ld + pd_of ek) |} vs)
+                 (fun b' => builder_finish ek b'))
+         (fun o st' => exists t, o = Ok (t, ld, lenN vs) /\ shape t = canon ek ld vs /\
+                                 alloc_only st st' /\ fresh_or_from st st' [] t /\ idf [t]) st.
+    Proof.
+      intros Hl. pose proof (build_canon_idf ek ld vs R st ld_le Hl) as W1.
+      rewrite (builder_new_ok ld 0 ld_le) in W1. cbn [bind] in W1. exact W1.
+    Qed.
+
+    Theorem list_try_from_iter_spec R vs st G : gok st G -> lenN vs <= capN ->
+      wp R (list_try_from_iter ek M capN vs) (ctor_post st G vs) st.
+    Proof.
+      intros Gk Hl. unfold list_try_from_iter. rewrite (builder_new_ok ld 0 ld_le). cbn [bind].
+      apply wp_assoc. apply wp_bind.
+      eapply wp_mono; [|apply (build_spec R vs st)]; [|eapply N.le_trans; [exact Hl|apply cap_ld]].
+      intros o st' (t & -> & Hsh & Ha & FF & IDt). cbn [lift].
+      destruct (N.ltb_spec capN (lenN vs)); [lia|]. cbn [wp].
+      exists (from_parts M t ld (lenN vs)). split; [reflexivity|].
+      split; [apply from_parts_clean; auto|]. split; [reflexivity|]. split; [exact Ha|]. split; [exact FF|].
+      cbn [from_parts htree]. apply (gok_alloc st st' G [] t Gk Ha); auto. intros t0 [].
+    Qed.
+
+    Lemma push_all_fail R v e : forall vs1 b s,
+      wp R (bind (push_all ek b vs1) (fun b' => builder_push ek b' v)) (fun o _ => o = Err e) s ->
+      forall vs2 {A} (k : builder T -> prog A),
+        wp R (bind (push_all ek b (vs1 ++ v :: vs2)) k) (fun o _ => o = Err e) s.
+    Proof.
+      induction vs1 as [|a vs1 IH]; intros b s W vs2 A k.
+      - cbn [push_all bind app] in *. apply wp_bind, wp_bind. eapply wp_mono; [|exact W].
+        intros [b'|e'|c] s' E; try discriminate E; cbn [lift]. injection E as ->. reflexivity.
+      - cbn [push_all app] in *. apply (proj1 (wp_assoc R _ _ _ _ _)) in W. apply wp_bind in W.
+        apply (proj2 (wp_assoc R _ _ _ _ _)). apply wp_bind. eapply wp_mono; [|exact W].
+        intros [b'|e'|c] s' X; cbn [lift] in *; auto; try discriminate X. injection X as ->. reflexivity.
+    Qed.
+
+    Theorem list_try_from_iter_full R vs st : capN < lenN vs ->
+      wp R (list_try_from_iter ek M capN vs) (fail_post st BuilderFull) st.
+    Proof.
+      intros Hl. unfold fail_post. apply wp_conj; [|apply allocp_wp0, allocp_list_try_from_iter].
+      unfold list_try_from_iter. rewrite (builder_new_ok ld 0 ld_le). cbn [bind].
+      destruct (N.le_gt_cases (lenN vs) (cap ek ld)) as [Hle|Hgt].
+      - apply (proj1 (wp_assoc R _ _ _ _ _)). apply wp_bind.
+        eapply wp_mono; [|apply (build_spec R vs st Hle)].
+        intros o st' (t & -> & _). cbn [lift]. destruct (N.ltb_spec capN (lenN vs)); [reflexivity|lia].
+      - rewrite <- (takeN_dropN (cap ek ld) vs).
+        destruct (dropN (cap ek ld) vs) as [|v vs2] eqn:Ed.
+        { pose proof (lenN_dropN (cap ek ld) vs) as X. rewrite Ed, lenN_nil in X. lia. }
+        apply push_all_fail.
+        pose proof (push_full ek ld (takeN (cap ek ld) vs) v R st ld_le) as W.
+        rewrite (builder_new_ok ld 0 ld_le) in W. cbn [bind] in W. apply W. rewrite lenN_takeN. lia.
+    Qed.
+
+    (* ---------- try_from_iter_slow ---------- *)
+    Lemma push_all_iface_ok : forall vs (h : handle) l, hinv h l -> hlist h = true -> lenN l + lenN vs <= capN ->
+      exists h', push_all_iface M capN h vs = Ret h' /\ hinv h' (l ++ vs) /\ same_backing h h'.
+    Proof.
+      induction vs as [|v vs IH]; intros h l HI Hlist Hl.
+      - exists h. rewrite app_nil_r. split; [reflexivity|]. split; [exact HI|]. unfold same_backing. auto.
+      - rewrite lenN_cons in Hl.
+        destruct (push_spec_list ek M uinv capN UL cap_ld h l v HI Hlist ltac:(lia)) as (h1 & E1 & HI1 & SB1).
+        destruct (IH h1 (l ++ [v]) HI1) as (h' & E' & HI' & SB').
+        { destruct SB1 as (_ & _ & _ & X). congruence. }
+        { rewrite lenN_app, lenN_cons, lenN_nil. lia. }
+        exists h'. cbn [push_all_iface]. rewrite E1. cbn [bind]. split; [exact E'|].
+        rewrite <- app_assoc in HI'. split; [exact HI'|].
+        destruct SB1 as (A1 & A2 & A3 & A4), SB' as (B1 & B2 & B3 & B4). repeat split; congruence.
+    Qed.
+    Lemma push_all_iface_full : forall vs1 (h : handle) l v vs2, hinv h l -> hlist h = true -> lenN l + lenN vs1 = capN ->
+      push_all_iface M capN h (vs1 ++ v :: vs2) = Fail (ListFull capN).
+    Proof.
+      induction vs1 as [|a vs1 IH]; intros h l v vs2 HI Hlist Hl.
+      - rewrite lenN_nil in Hl. cbn [app push_all_iface].
+        rewrite (push_spec_full ek M uinv capN h l v HI Hlist ltac:(lia)). reflexivity.
+      - rewrite lenN_cons in Hl.
+        destruct (push_spec_list ek M uinv capN UL cap_ld h l a HI Hlist ltac:(lia)) as (h1 & E1 & HI1 & SB1).
+        cbn [app push_all_iface]. rewrite E1. cbn [bind]. apply (IH h1 (l ++ [a])); auto.
+        + destruct SB1 as (_ & _ & _ & X). congruence.
+        + rewrite lenN_app, lenN_cons, lenN_nil. lia.
+    Qed.
+
+    Theorem list_try_from_iter_slow_spec R vs st G : gok st G -> lenN vs <= capN ->
+      wp R (list_try_from_iter_slow ek M capN vs) (ctor_post st G vs) st.
+    Proof.
+      intros Gk Hl. unfold list_try_from_iter_slow. apply wp_bind.
+      eapply wp_mono; [|apply (list_empty_spec R st G Gk)].
+      intros o st1 (h0 & -> & [HI0 Hp0] & Hlist0 & Ha0 & FF0 & Gk0). cbn [lift].
+      destruct (push_all_iface_ok vs h0 [] HI0 Hlist0) as (h1 & E1 & HI1 & SB1); [rewrite lenN_nil; lia|].
+      rewrite E1. cbn [bind app] in *. destruct SB1 as (S1 & S2 & S3 & S4).
+      eapply wp_mono; [|apply (apply_q_spec R h1 vs st1 (htree h0 :: G) Gk0 HI1)]; [|left; congruence].
+      intros o st2 (h2 & -> & HI2 & Hp2 & Ha2 & FF2 & Gk2 & Hlist2 & _).
+      exists h2. split; [reflexivity|]. split; [split; assumption|]. split; [congruence|].
+      split; [eapply alloc_only_trans; eauto|]. split.
+      - intros u Su. right. destruct (FF2 u Su) as [(t0 & [<-|[]] & S0)|[A B]].
+        + rewrite S1 in S0. destruct (FF0 u S0) as [(t1 & [] & _)|[A B]]. destruct Ha2 as [_ N2]. split; [exact A|lia].
+        + destruct Ha0 as [_ N0]. split; [lia|exact B].
+      - eapply gok_incl; [exact Gk2|]. intros x [<-|Hx]; [left; reflexivity|right; right; exact Hx].
+    Qed.
+
+    Theorem list_try_from_iter_slow_full R vs st G : gok st G -> capN < lenN vs ->
+      wp R (list_try_from_iter_slow ek M capN vs) (fail_post st (ListFull capN)) st.
+    Proof.
+      intros Gk Hl. unfold list_try_from_iter_slow. apply wp_bind.
+      eapply wp_mono; [|apply (list_empty_spec R st G Gk)].
+      intros o st1 (h0 & -> & [HI0 Hp0] & Hlist0 & Ha0 & FF0 & Gk0). cbn [lift].
+      rewrite <- (takeN_dropN capN vs).
+      destruct (dropN capN vs) as [|v vs2] eqn:Ed.
+      { pose proof (lenN_dropN capN vs) as X. rewrite Ed, lenN_nil in X. lia. }
+      rewrite (push_all_iface_full (takeN capN vs) h0 [] v vs2 HI0 Hlist0); [|rewrite lenN_nil, lenN_takeN; lia].
+      cbn [bind wp]. split; [reflexivity|exact Ha0].
+    Qed.
+
+    (* ---------- repeat ---------- *)
+    Theorem list_repeat_spec R v n st G : gok st G -> n <= capN ->
+      wp R (list_repeat ek M capN v n) (ctor_post st G (repeatN v n)) st.
+    Proof.
+      intros Gk Hn. unfold list_repeat. destruct (N.eqb_spec n 0) as [->|Hn0]; [apply list_empty_spec; exact Gk|].
+      apply wp_bind.
+      eapply wp_mono; [|apply (repeat_canon_idf ek v capN ld n R st)]; [|lia|exact Hn|apply cap_ld].
+      intros o st' (root & -> & Hsh & Ha & FF & _ & IDt). cbn [lift wp].
+      exists (from_parts M root ld n). split; [reflexivity|]. split.
+      { apply hclean_mk; cbn [from_parts hupd htree hblen hdepth hlist]; auto; try discriminate.
+        - symmetry. apply lenN_repeatN. - rewrite lenN_repeatN. exact Hn. }
+      split; [reflexivity|]. split; [exact Ha|]. split; [exact FF|].
+      cbn [from_parts htree]. apply (gok_alloc st st' G [] root Gk Ha); auto. intros t0 [].
+    Qed.
+    Theorem list_repeat_full R v n st : capN < n ->
+      wp R (list_repeat ek M capN v n) (fail_post st BuilderFull) st.
+    Proof.
+      intros Hn. unfold list_repeat. destruct (N.eqb_spec n 0) as [->|Hn0]; [lia|].
+      unfold repeat_tree. cbv beta zeta. destruct (N.ltb_spec capN n); [|lia].
+      cbn [bind wp]. split; [reflexivity|apply alloc_only_refl].
+    Qed.
+
+    Theorem list_repeat_slow_spec R v n st G : gok st G -> n <= capN ->
+      wp R (list_repeat_slow ek M capN v n) (ctor_post st G (repeatN v n)) st.
+    Proof.
+      intros Gk Hn. unfold list_repeat_slow. cbv zeta. pose proof cap_ld as Hc. unfold cap in Hc.
+      rewrite N.min_l by lia. apply list_try_from_iter_spec; auto. rewrite lenN_repeatN. exact Hn.
+    Qed.
+    Theorem list_repeat_slow_full R v n st : capN < n ->
+      wp R (list_repeat_slow ek M capN v n) (fail_post st BuilderFull) st.
+    Proof.
+      intros Hn. unfold list_repeat_slow. cbv zeta. pose proof cap_ld as Hc. unfold cap in Hc.
+      apply list_try_from_iter_full. rewrite lenN_repeatN. lia.
+    Qed.
+
+    (* ================= C. derived PartialEq ================= *)
+    Lemma list_eqb_iff : forall a b : list T, list_eqb ek a b = true <-> a = b.
+    Proof.
+      induction a as [|x a IH]; intros [|y b]; cbn [list_eqb]; split; intros E; try discriminate E; auto.
+      - apply andb_prop in E as [E1 E2]. apply (ek_eqb_spec ek EKW) in E1. apply IH in E2. congruence.
+      - injection E as -> ->. apply andb_true_intro. split; [apply (ek_eqb_spec ek EKW); reflexivity|apply IH; reflexivity].
+    Qed.
+    Lemma stree_eqb_iff : forall a b : stree T, stree_eqb ek a b = true <-> a = b.
+    Proof.
+      induction a as [v|vs|l IHl r IHr|d]; intros [w|ws|l' r'|d']; cbn [stree_eqb]; split; intros E; try discriminate E.
+      - apply (ek_eqb_spec ek EKW) in E. congruence.
+      - injection E as ->. apply (ek_eqb_spec ek EKW). reflexivity.
+      - apply list_eqb_iff in E. congruence.
+      - injection E as ->. apply list_eqb_iff. reflexivity.
+      - apply andb_prop in E as [E1 E2]. apply IHl in E1. apply IHr in E2. congruence.
+      - injection E as -> ->. apply andb_true_intro. split; [apply IHl|apply IHr]; reflexivity.
+      - apply Nat.eqb_eq in E. congruence.
+      - injection E as ->. apply Nat.eqb_eq. reflexivity.
+    Qed.
+    Theorem canon_inj d l1 l2 : lenN l1 <= cap ek d -> lenN l2 <= cap ek d -> canon ek d l1 = canon ek d l2 -> l1 = l2.
+    Proof.
+      intros H1 H2 E. rewrite <- (selems_canon ek d l1 H1), <- (selems_canon ek d l2 H2), E. reflexivity.
+    Qed.
+
+    (* the kind flags are not compared (List and Vector are different Rust types); `hlist h1 = hlist h2`
+       is therefore not needed *)
+    Theorem coll_eqb_spec' (h1 h2 : handle) l1 l2 : hclean h1 l1 -> hclean h2 l2 ->
+      (coll_eqb ek M h1 h2 = true <-> l1 = l2).
+    Proof.
+      intros C1 C2. destruct (hclean_shape h1 l1 C1) as (Sh1 & B1 & D1 & L1 & U1 & I1).
+      destruct (hclean_shape h2 l2 C2) as (Sh2 & B2 & D2 & L2 & U2 & I2).
+      unfold coll_eqb, tree_eqb. rewrite Sh1, Sh2, D1, D2, Nat.eqb_refl, (ul_eqb_empty _ _ _ UL _ _ I1 I2 U1 U2), !andb_true_r.
+      rewrite <- B1, <- B2. pose proof cap_ld as Hc. split.
+      - intros E. apply andb_prop in E as [E _]. apply stree_eqb_iff in E. apply canon_inj in E; auto; lia.
+      - intros ->. rewrite N.eqb_refl, andb_true_r. apply stree_eqb_iff. reflexivity.
+    Qed.
+    Theorem coll_eqb_spec (h1 h2 : handle) l1 l2 : hclean h1 l1 -> hclean h2 l2 -> hlist h1 = hlist h2 ->
+      (coll_eqb ek M h1 h2 = true <-> l1 = l2).
+    Proof. intros C1 C2 _. apply coll_eqb_spec'; assumption. Qed.
+
+    (* ================= B. pop_front ================= *)
+    Lemma compute_level_cases n : 0 < n -> n <= capN ->
+      (compute_level n ld (pd_of ek) = 0%nat \/ (pd_of ek <= compute_level n ld (pd_of ek))%nat) /\
+      (compute_level n ld (pd_of ek) <= ld + pd_of ek)%nat.
+    Proof.
+      intros Hn0 Hn. unfold compute_level. destruct (N.eqb_spec n 0) as [|_]; [lia|].
+      assert (tz n <= ld + pd_of ek)%nat as Htz.
+      { apply tz_le; [exact Hn0|]. pose proof cap_ld as Hc. unfold cap in Hc. lia. }
+      destruct (Nat.ltb_spec (tz n) (pd_of ek)); split; auto; lia.
+    Qed.
+
+    (* list_level_iter_from on a clean handle, with the extra fact that level 0 of a packed kind
+       (pd > 0) yields single elements only *)
+    Lemma level_items (h : handle) l n : hclean h l -> n <= lenN l ->
+      exists items, list_level_iter_from ek M h n = Ret items /\
+        items_blocks ek (compute_level n ld (pd_of ek)) items (dropN n l) /\
+        (forall u, In u (internal_nodes items) -> subt u (htree h)) /\
+        (compute_level n ld (pd_of ek) = 0%nat -> (0 < pd_of ek)%nat -> internal_nodes items = []).
+    Proof.
+      intros HC Hn. pose proof HC as [HI Hp].
+      destruct (hclean_shape h l HC) as (Sh & Bl & Dh & Ll & _ & _).
+      destruct (list_level_iter_from_spec ek M uinv capN UL CAP h l HI n) as (_ & _ & X).
+      destruct (X Hn Hp) as (items & E & IB & Sub). rewrite Dh in IB.
+      exists items. split; [exact E|]. split; [exact IB|]. split; [exact Sub|].
+      intros HL0 Hpd.
+      assert (Hcap : lenN l <= cap ek ld) by (eapply N.le_trans; [exact Ll|apply cap_ld]).
+      assert (Hinv : linv ek l (htree h) ld 0 (liter_from_index ek n (htree h) ld (lenN l)) n).
+      { exists [htree h]. split; [unfold liter_from_index, mkl; rewrite HL0; reflexivity|].
+        intros Hlt. exists ld. split; [lia|]. apply stack_ok_root; auto. lia. }
+      destruct (liter_collect_elem ek l (htree h) ld Hcap Hpd (S (S (N.to_nat (lenN l)))) n _ Hinv ltac:(lia))
+        as (items' & E' & _ & Hnone).
+      unfold list_level_iter_from in E. rewrite (iface_len_spec ek M uinv capN h l HI), Hp, Dh, <- Bl, E' in E.
+      destruct (N.ltb_spec (lenN l) n); [lia|]. cbn [of_outcome] in E. injection E as <-. exact Hnone.
+    Qed.
+
+    Lemma allocp_push_node b (node : tree) len : allocp (builder_push_node ek b node len).
+    Proof.
+      unfold builder_push_node. cbv beta zeta. destruct (blength b =? bcap b); [exact I|].
+      destruct (64 <=? blevel b); [exact I|]. apply allocp_bind.
+      - generalize (if blevel b =? 0
+                    then (tz (N.shiftr (blength b) (blevel b) + 1) - pd_of ek)%nat
+                    else tz (N.shiftr (blength b) (blevel b) + 1)) as k.
+        generalize (true, node) as top. generalize (bstack b) as st.
+        intros st top k. revert top st. induction k as [|k IH]; intros top st; cbn [merge_avail]; [exact I|].
+        destruct st as [|[b0 l0] st']; [exact I|]. cbn [bind fresh allocp]. intros i. apply IH.
+      - intros [top st]. destruct (usize_max <? blength b + len); exact I.
+    Qed.
+    Lemma allocp_feed items L : forall b, allocp (pop_front_feed ek items L b).
+    Proof.
+      induction items as [|[node|v] rest IH]; intros b; cbn [pop_front_feed]; [exact I| |].
+      - cbv zeta. apply allocp_bind; [apply allocp_push_node|]. intros b'. apply IH.
+      - apply allocp_bind; [apply allocp_push|]. intros b'. apply IH.
+    Qed.
+
+    (* what pop_front leaves behind, in all cases: h1 is the flushed handle (h itself when h was clean) *)
+    Definition flushed (st : state) (G : list tree) (h : handle) (l : list T) (h1 : handle) (st1 : state) : Prop :=
+      hclean h1 l /\ hlist h1 = hlist h /\ alloc_only st st1 /\ fresh_or_from st st1 [htree h] (htree h1) /\
+      gok st1 (htree h1 :: G) /\ (has_pending M h = false -> h1 = h).
+
+    Theorem pop_front_spec R (h : handle) l n st G : gok st G -> hinv h l -> In (htree h) G -> hlist h = true ->
+      n <= lenN l ->
+      wp R (list_pop_front ek M capN h n)
+         (fun o st' => exists h', o = Ok (None, h') /\ hclean h' (dropN n l) /\ hlist h' = true /\
+            alloc_only st st' /\ fresh_or_from st st' [htree h] (htree h') /\ gok st' (htree h' :: G) /\
+            (* C10: the level-L blocks of the flushed tree are shared, everything else is new *)
+            exists h1 st1 items, flushed st G h l h1 st1 /\ alloc_only st1 st' /\
+              gok st' (htree h' :: htree h1 :: G) /\
+              (n = 0 -> h' = h1) /\
+              (0 < n -> list_level_iter_from ek M h1 n = Ret items /\
+                        items_blocks ek (compute_level n ld (pd_of ek)) items (dropN n l) /\
+                        (forall u, In u (internal_nodes items) -> subt u (htree h1) /\ subt u (htree h')) /\
+                        fresh_or_from st1 st' (internal_nodes items) (htree h'))) st.
+    Proof.
+      intros Gk HI Hin Hlist Hn. unfold list_pop_front. apply wp_bind.
+      eapply wp_mono; [|apply (apply_spec R h l st G Gk HI Hin)].
+      intros o st1 (h1 & -> & HI1 & Hp1 & Ha1 & FF1 & Gk1 & Hlist1 & Hsame1). cbn [lift]. cbv beta iota.
+      assert (HF : flushed st G h l h1 st1) by (split; [split; assumption|]; repeat (split; [assumption|]); assumption).
+      destruct (N.eqb_spec n 0) as [->|Hn0].
+      { cbn [wp]. exists h1. rewrite dropN_0. split; [reflexivity|]. split; [split; assumption|].
+        split; [congruence|]. split; [exact Ha1|]. split; [exact FF1|]. split; [exact Gk1|].
+        exists h1, st1, []. split; [exact HF|]. split; [apply alloc_only_refl|].
+        split; [apply gok_dup; [exact Gk1|left; reflexivity]|]. split; [auto|]. intros X. lia. }
+      apply wp_bind. apply wp_try. cbv zeta. rewrite (builder_new_ok ld _ ld_le). cbn [bind].
+      destruct (level_items h1 l n (conj HI1 Hp1) Hn) as (items & E & IB & Sub & Hnone).
+      rewrite E. cbn [bind].
+      destruct (compute_level_cases n ltac:(lia)) as (Hcase & HLle); [pose proof HI as (_ & _ & X & _); lia|].
+      assert (Hrest : lenN (dropN n l) <= capN) by (rewrite lenN_dropN; pose proof HI as (_ & _ & X & _); lia).
+      assert (Hin1 : forall u, In u (internal_nodes items) -> subt_in u (htree h1 :: G)).
+      { intros u Hu. exists (htree h1). split; [left; reflexivity|apply Sub, Hu]. }
+      pose proof (feed_canon_idf ek ld _ items (dropN n l) R st1 ld_le Hcase Hnone HLle IB
+                    ltac:(eapply N.le_trans; [exact Hrest|apply cap_ld])
+                    (idf_sub _ _ (proj1 Gk1) Hin1)
+                    (fun u Hu => below_in _ _ u (gok_all_below _ _ Gk1) (Hin1 u Hu))) as W.
+      pose proof (feed_canon_retain ek ld _ items (dropN n l) R st1 ld_le Hcase Hnone HLle IB
+                    ltac:(eapply N.le_trans; [exact Hrest|apply cap_ld])) as Wr.
+      rewrite (builder_new_ok ld _ ld_le) in W, Wr. cbn [bind] in W, Wr.
+      apply (proj1 (wp_assoc R _ _ _ _ _)). apply wp_bind.
+      eapply wp_mono; [|apply (wp_conj R _ _ _ st1 W Wr)].
+      intros o st2 [(t' & -> & Hsh & Ha2 & FF2 & IDt) Hret]. cbn [lift wp].
+      specialize (Hret t' _ _ eq_refl).
+      assert (FF2' : fresh_or_from st1 st2 [htree h1] t').
+      { intros u Su. destruct (FF2 u Su) as [(t0 & I0 & S0)|X]; [left|right; exact X].
+        exists (htree h1). split; [left; reflexivity|]. eapply IterP.subt_trans; [exact S0|apply Sub, I0]. }
+      assert (Gk2 : gok st2 (t' :: htree h1 :: G)).
+      { apply (gok_alloc st1 st2 (htree h1 :: G) [htree h1] t' Gk1 Ha2); auto.
+        - intros t0 [<-|[]]. left. reflexivity.
+        - eapply idf_incl; [|exact IDt]. intros x [<-|[]]. left. reflexivity. }
+      exists (from_parts M t' ld (lenN (dropN n l))). split; [reflexivity|].
+      split; [apply from_parts_clean; auto|]. split; [reflexivity|].
+      split; [eapply alloc_only_trans; eauto|]. cbn [from_parts htree]. split; [|split].
+      - intros u Su. destruct (FF2' u Su) as [(t0 & [<-|[]] & S0)|[A B]].
+        + destruct (FF1 u S0) as [X|[A B]]; [left; exact X|right]. destruct Ha2 as [_ N2]. split; [exact A|lia].
+        + right. destruct Ha1 as [_ N1]. split; [lia|exact B].
+      - eapply gok_incl; [exact Gk2|]. intros x [<-|Hx]; [left; reflexivity|right; right; exact Hx].
+      - exists h1, st1, items. split; [exact HF|]. split; [exact Ha2|]. split; [exact Gk2|]. split; [intros X; lia|].
+        intros _. split; [exact E|]. split; [exact IB|]. split; [|exact FF2].
+        intros u Hu. split; [apply Sub, Hu|apply Hret, Hu].
+    Qed.
+
+    (* beyond the length: the handle has been flushed, the error is reported *)
+    Theorem pop_front_oob R (h : handle) l n st G : gok st G -> hinv h l -> In (htree h) G -> lenN l < n ->
+      wp R (list_pop_front ek M capN h n)
+         (fun o st' => exists h1, o = Ok (Some (OutOfBoundsIterFrom n (lenN l)), h1) /\ flushed st G h l h1 st') st.
+    Proof.
+      intros Gk HI Hin Hn. unfold list_pop_front. apply wp_bind.
+      eapply wp_mono; [|apply (apply_spec R h l st G Gk HI Hin)].
+      intros o st1 (h1 & -> & HI1 & Hp1 & Ha1 & FF1 & Gk1 & Hlist1 & Hsame1). cbn [lift]. cbv beta iota.
+      assert (HF : flushed st G h l h1 st1) by (split; [split; assumption|]; repeat (split; [assumption|]); assumption).
+      destruct (N.eqb_spec n 0) as [->|Hn0]; [lia|].
+      cbv zeta. rewrite (builder_new_ok ld _ ld_le). cbn [bind].
+      destruct (list_level_iter_from_spec ek M uinv capN UL CAP h1 l HI1 n) as (X & _ & _).
+      rewrite (X Hn). cbn [bind try_ wp]. exists h1. auto.
+    Qed.
+
+    (* ---------- pop_front_slow ---------- *)
+    Theorem pop_front_slow_spec R (h : handle) l n st G : gok st G -> hinv h l -> n <= lenN l ->
+      wp R (list_pop_front_slow ek M capN h n) (ctor_post st G (dropN n l)) st.
+    Proof.
+      intros Gk HI Hn. unfold list_pop_front_slow. apply wp_bind.
+      eapply wp_mono; [|apply (coll_iter_from_spec ek M uinv capN CAP h l HI R st n)].
+      intros o st' [-> ->]. destruct (N.ltb_spec (lenN l) n); [lia|]. cbn [lift].
+      apply list_try_from_iter_spec; [exact Gk|]. rewrite lenN_dropN. pose proof HI as (_ & _ & X & _). lia.
+    Qed.
+    Theorem pop_front_slow_oob R (h : handle) l n st : hinv h l -> lenN l < n ->
+      wp R (list_pop_front_slow ek M capN h n) (fail_post st (OutOfBoundsIterFrom n (lenN l))) st.
+    Proof.
+      intros HI Hn. unfold list_pop_front_slow. apply wp_bind.
+      eapply wp_mono; [|apply (coll_iter_from_spec ek M uinv capN CAP h l HI R st n)].
+      intros o st' [-> ->]. destruct (N.ltb_spec (lenN l) n); [|lia]. cbn [lift].
+      split; [reflexivity|apply alloc_only_refl].
+    Qed.
+
+    (* ================= B. conversions and Vector constructors ================= *)
+    Definition as_vector (h : handle) : handle :=
+      {| hlist := false; htree := htree h; hblen := capN; hdepth := hdepth h; hupd := hupd h |}.
+
+    Lemma hinv_as_vector (h : handle) l : hinv h l -> hblen h = capN -> lenN l = capN -> hinv (as_vector h) l.
+    Proof.
+      intros ((bl & A & B & C & D) & Hd & Hl & Hb & Hv & Hu) E1 E2. split.
+      - exists bl. cbn [as_vector htree hdepth hblen hupd]. rewrite <- E1. auto.
+      - cbn [as_vector htree hdepth hblen hupd hlist]. split; [exact Hd|]. split; [exact Hl|]. split; [lia|]. split; [auto|exact Hu].
+    Qed.
+    Lemma has_pending_as_vector (h : handle) : has_pending M (as_vector h) = has_pending M h.
+    Proof. reflexivity. Qed.
+
+    Lemma vector_try_from_wrong (h : handle) l : hinv h l -> lenN l <> capN ->
+      vector_try_from ek M capN h = Fail (WrongVectorLength (lenN l) capN).
+    Proof.
+      intros HI Hne. unfold vector_try_from. rewrite (iface_len_spec ek M uinv capN h l HI).
+      destruct (N.eqb_spec (lenN l) capN); [contradiction|reflexivity].
+    Qed.
+    Lemma vector_try_from_noflush (h : handle) l : hinv h l -> lenN l = capN -> hblen h = capN ->
+      vector_try_from ek M capN h = Ret (as_vector h).
+    Proof.
+      intros HI E1 E2. unfold vector_try_from. rewrite (iface_len_spec ek M uinv capN h l HI).
+      destruct (N.eqb_spec (lenN l) capN); [|contradiction].
+      destruct (N.eqb_spec (hblen h) capN); [|contradiction]. reflexivity.
+    Qed.
+
+    (* TryFrom<List> for Vector with the F5 repair: pending writes are flushed exactly when the backing
+       length is not yet N (then the tree would not have N leaves); the result represents the same list *)
+    Theorem vector_try_from_spec R (h : handle) l st G : gok st G -> hinv h l -> In (htree h) G -> lenN l = capN ->
+      wp R (vector_try_from ek M capN h)
+         (fun o st' => exists v, o = Ok v /\ hinv v l /\ hlist v = false /\
+            alloc_only st st' /\ fresh_or_from st st' [htree h] (htree v) /\ gok st' (htree v :: G) /\
+            (hblen h = capN -> st' = st /\ v = as_vector h) /\
+            (hblen h <> capN -> has_pending M v = false)) st.
+    Proof.
+      intros Gk HI Hin El. destruct (N.eq_dec (hblen h) capN) as [Eb|Nb].
+      - rewrite (vector_try_from_noflush h l HI El Eb). cbn [wp]. exists (as_vector h).
+        split; [reflexivity|]. split; [apply hinv_as_vector; auto|]. split; [reflexivity|].
+        split; [apply alloc_only_refl|]. split; [apply fresh_or_from_refl|].
+        split; [apply gok_dup; auto|]. split; [auto|contradiction].
+      - unfold vector_try_from. rewrite (iface_len_spec ek M uinv capN h l HI).
+        destruct (N.eqb_spec (lenN l) capN); [|contradiction].
+        destruct (N.eqb_spec (hblen h) capN); [contradiction|]. cbn [negb]. apply wp_bind.
+        eapply wp_mono; [|apply (apply_q_spec R h l st G Gk HI Hin)].
+        intros o st' (h' & -> & HI' & Hp' & Ha & FF & Gk' & _). cbn [lift wp].
+        destruct (has_pending_spec ek M uinv capN UL h' l HI' Hp') as [_ Hb'].
+        exists (as_vector h'). split; [reflexivity|]. split; [apply hinv_as_vector; auto; congruence|].
+        split; [reflexivity|]. split; [exact Ha|]. split; [exact FF|]. split; [exact Gk'|].
+        split; [contradiction|]. intros _. exact Hp'.
+    Qed.
+    Theorem vector_try_from_wrong_spec R (h : handle) l st : hinv h l -> lenN l <> capN ->
+      wp R (vector_try_from ek M capN h) (fun o st' => o = Err (WrongVectorLength (lenN l) capN) /\ st' = st) st.
+    Proof. intros HI Hne. rewrite (vector_try_from_wrong h l HI Hne). cbn [wp]. auto. Qed.
+
+    (* From<Vector> for List *)
+    Theorem list_from_vector_spec (v : handle) l : hinv v l -> hlist v = false ->
+      hinv (list_from_vector capN v) l /\ hlist (list_from_vector capN v) = true /\
+      htree (list_from_vector capN v) = htree v /\ hupd (list_from_vector capN v) = hupd v /\
+      has_pending M (list_from_vector capN v) = has_pending M v.
+    Proof.
+      intros ((bl & A & B & C & D) & Hd & Hl & Hb & Hv & Hu) Hlist. destruct (Hv Hlist) as [E1 E2].
+      split; [|repeat split]. split.
+      - exists bl. cbn [list_from_vector htree hdepth hblen hupd]. rewrite <- E1. auto.
+      - cbn [list_from_vector htree hdepth hblen hupd hlist]. split; [exact Hd|]. split; [exact Hl|]. split; [lia|].
+        split; [discriminate|exact Hu].
+    Qed.
+
+    (* a clean Vector handle all of whose nodes are new *)
+    Definition vctor_post (st : state) (G : list tree) (l : list T) (o : outcome handle) (st' : state) : Prop :=
+      exists v, o = Ok v /\ hclean v l /\ hlist v = false /\ alloc_only st st' /\
+                fresh_or_from st st' [] (htree v) /\ gok st' (htree v :: G).
+
+    Lemma ctor_then_vector R (m : prog handle) l st G : lenN l = capN ->
+      wp R m (ctor_post st G l) st ->
+      wp R (bind m (vector_try_from ek M capN)) (vctor_post st G l) st.
+    Proof.
+      intros El W. apply wp_bind. eapply wp_mono; [|exact W].
+      intros o st' (h' & -> & HC & Hlist & Ha & FF & Gk'). cbn [lift].
+      destruct (hclean_shape h' l HC) as (_ & Hb & _). destruct HC as [HI Hp].
+      rewrite (vector_try_from_noflush h' l HI El ltac:(congruence)). cbn [wp].
+      exists (as_vector h'). split; [reflexivity|]. split; [split; [apply hinv_as_vector; auto; congruence|exact Hp]|].
+      split; [reflexivity|]. auto.
+    Qed.
+    Lemma ctor_then_vector_wrong R (m : prog handle) l st G : lenN l <> capN ->
+      wp R m (ctor_post st G l) st ->
+      wp R (bind m (vector_try_from ek M capN)) (fail_post st (WrongVectorLength (lenN l) capN)) st.
+    Proof.
+      intros El W. apply wp_bind. eapply wp_mono; [|exact W].
+      intros o st' (h' & -> & [HI Hp] & Hlist & Ha & FF & Gk'). cbn [lift].
+      rewrite (vector_try_from_wrong h' l HI El). cbn [wp]. split; [reflexivity|exact Ha].
+    Qed.
+    Lemma fail_then R {A B} (m : prog A) (f : A -> prog B) e st :
+      wp R m (fail_post st e) st -> wp R (bind m f) (fail_post st e) st.
+    Proof.
+      intros W. apply wp_bind. eapply wp_mono; [|exact W].
+      intros o st' [-> Ha]. cbn [lift]. split; [reflexivity|exact Ha].
+    Qed.
+
+    Theorem vector_new_spec R vs st G : gok st G -> lenN vs = capN ->
+      wp R (vector_new ek M capN vs) (vctor_post st G vs) st.
+    Proof.
+      intros Gk El. unfold vector_new. destruct (N.eqb_spec (lenN vs) capN); [|contradiction].
+      apply ctor_then_vector; [exact El|]. apply list_try_from_iter_spec; [exact Gk|lia].
+    Qed.
+    Theorem vector_new_wrong R vs st : lenN vs <> capN ->
+      wp R (vector_new ek M capN vs) (fail_post st (WrongVectorLength (lenN vs) capN)) st.
+    Proof.
+      intros El. unfold vector_new. destruct (N.eqb_spec (lenN vs) capN); [contradiction|].
+      cbn [wp]. split; [reflexivity|apply alloc_only_refl].
+    Qed.
+
+    Theorem vector_try_from_iter_spec R vs st G : gok st G -> lenN vs = capN ->
+      wp R (vector_try_from_iter ek M capN vs) (vctor_post st G vs) st.
+    Proof.
+      intros Gk El. unfold vector_try_from_iter.
+      apply ctor_then_vector; [exact El|]. apply list_try_from_iter_spec; [exact Gk|lia].
+    Qed.
+    Theorem vector_try_from_iter_short R vs st G : gok st G -> lenN vs < capN ->
+      wp R (vector_try_from_iter ek M capN vs) (fail_post st (WrongVectorLength (lenN vs) capN)) st.
+    Proof.
+      intros Gk El. unfold vector_try_from_iter.
+      apply (ctor_then_vector_wrong R _ vs st G); [lia|]. apply list_try_from_iter_spec; [exact Gk|lia].
+    Qed.
+    Theorem vector_try_from_iter_long R vs st : capN < lenN vs ->
+      wp R (vector_try_from_iter ek M capN vs) (fail_post st BuilderFull) st.
+    Proof. intros El. unfold vector_try_from_iter. apply fail_then. apply list_try_from_iter_full. exact El. Qed.
+
+    Theorem vector_from_elem_spec R v st G : gok st G ->
+      wp R (vector_from_elem ek M capN v) (vctor_post st G (repeatN v capN)) st.
+    Proof.
+      intros Gk. unfold vector_from_elem.
+      apply ctor_then_vector; [apply lenN_repeatN|]. apply list_repeat_spec; [exact Gk|lia].
+    Qed.
+
+    Lemma wp_fail_to_panic {A} R (m : prog A) : forall (Q : outcome A -> state -> Prop) s,
+      wp R m (fun o s' => match o with
+                          | Ok a => Q (Ok a) s'
+                          | Err e => Q (Panic PVectorDefault) s' /\ Q (Err e) s'
+                          | Panic c => Q (Panic c) s' end) s ->
+      wp R (fail_to_panic m) Q s.
+    Proof.
+      induction m as [A a|A e|A c|A k IH|A i k IH|A i d k IH|A p IHp q IHq k IHk|A t k IH]; cbn [wp fail_to_panic]; intros Q s W.
+      - exact W.
+      - apply W.
+      - exact W.
+      - apply IH. exact W.
+      - intros d Hd. apply IH. apply W. exact Hd.
+      - apply IH. exact W.
+      - eapply wp_mono; [|exact W]. intros [a|e|c] s1; [|intros [_ X]; exact X|auto].
+        intros V. eapply wp_mono; [|exact V]. intros [b|e|c] s2; [|intros [_ X]; exact X|auto].
+        apply IHk.
+      - apply IH. exact W.
+    Qed.
+    (* Vector::default never panics (capN >= 1 is part of capacity_ok) *)
+    Theorem vector_default_spec R st G : gok st G ->
+      wp R (vector_default ek M capN) (vctor_post st G (repeatN (edefault ek) capN)) st.
+    Proof.
+      intros Gk. unfold vector_default. apply wp_fail_to_panic.
+      eapply wp_mono; [|apply (vector_from_elem_spec R (edefault ek) st G Gk)].
+      intros o st' (v & -> & Rest). exists v. split; [reflexivity|exact Rest].
+    Qed.
 End CollCtor.
 
 Print Assumptions gok_alloc.
@@ -295,3 +905,29 @@ Print Assumptions gok_alloc_only.
 Print Assumptions apply_spec_hinv.
 Print Assumptions apply_spec.
 Print Assumptions apply_q_spec.
+Print Assumptions list_empty_spec.
+Print Assumptions list_try_from_iter_spec.
+Print Assumptions list_try_from_iter_full.
+Print Assumptions list_try_from_iter_slow_spec.
+Print Assumptions list_try_from_iter_slow_full.
+Print Assumptions list_repeat_spec.
+Print Assumptions list_repeat_full.
+Print Assumptions list_repeat_slow_spec.
+Print Assumptions list_repeat_slow_full.
+Print Assumptions canon_inj.
+Print Assumptions coll_eqb_spec'.
+Print Assumptions coll_eqb_spec.
+Print Assumptions pop_front_spec.
+Print Assumptions pop_front_oob.
+Print Assumptions pop_front_slow_spec.
+Print Assumptions pop_front_slow_oob.
+Print Assumptions vector_try_from_spec.
+Print Assumptions vector_try_from_wrong_spec.
+Print Assumptions list_from_vector_spec.
+Print Assumptions vector_new_spec.
+Print Assumptions vector_new_wrong.
+Print Assumptions vector_try_from_iter_spec.
+Print Assumptions vector_try_from_iter_short.
+Print Assumptions vector_try_from_iter_long.
+Print Assumptions vector_from_elem_spec.
+Print Assumptions vector_default_spec.
